@@ -184,4 +184,4 @@ pub fn replay(_ctx: &Ctx, v: &Value) -> Result<Outcome, String> {
     Ok(check(&c))
 }
 
-pub const RULE: &str = "proptest-generated FRI instances (1..=14 inner steps of 1..=4, last-layer exponent 0..=6, blow-up exponent 1..=4, friendly count 0..=log_input+1, PRF polynomial below the bound, PRF transcript seed, query sets from 5 shape classes; domain <= 2^11 quick / 2^15 thorough) produced by an independent coefficient-space prover, checked through Config::validate, fri_commit (eval points and transcript state vs model), compute_next_layer (vs folded polynomial) and fri_verify; plus direct fold-identity cases fri_formula == 2^k*sum_j b^j P_j(y) for k=1..4 on arbitrary cosets; plus the order-16 group table. Non-trivial instance = contains a step-1 or step-3 fold, a single-coset layer, or queries sharing a coset; every fold case is non-trivial; distinct by case hash per hash build";
+pub const RULE: &str = "proptest-generated FRI instances (1..=14 inner steps of 1..=4, last-layer exponent 0..=6, blow-up exponent 1..=4, friendly count 0..=log_input+1, polynomial below the bound in 6 shapes (PRF, zero, constant, vanishing at the first queried point, vanishing at every queried point, one monomial), PRF transcript seed, query sets from 5 shape classes; domain <= 2^11 quick / 2^15 thorough) produced by an independent coefficient-space prover, checked through Config::validate, fri_commit (eval points and transcript state vs model), compute_next_layer (vs folded polynomial) and fri_verify; plus direct fold-identity cases fri_formula == 2^k*sum_j b^j P_j(y) for k=1..4 on arbitrary cosets; plus the order-16 group table. Non-trivial instance = contains a step-1 or step-3 fold, a single-coset layer, or queries sharing a coset; every fold case is non-trivial; distinct by case hash per hash build";
